@@ -13,10 +13,11 @@ The projection buffer is found by role: a local whose (only strong) definition i
 from __future__ import annotations
 
 import ast
+import copy
 from typing import List, Optional, Tuple
 
 from ..cfg import CFG, Node
-from ..core import Fn, Repo, call_name, calls_in, const_value, get_kw, last_attr, short
+from ..core import Fn, Repo, call_name, calls_in, const_value, dotted, get_kw, last_attr, short
 from ..report import Check
 from ..terms import TermBuilder, walk_atoms
 
@@ -75,6 +76,76 @@ def flat_view(cfg: CFG, e: ast.AST, at: Node) -> Optional[Tuple[ast.Call, Node]]
     return None
 
 
+def _row_member(target: ast.AST, value: ast.AST, name: str) -> Optional[ast.AST]:
+    """the member of the literal row `value` that the loop target `target` binds to `name`."""
+    if isinstance(target, ast.Name):
+        return value if target.id == name else None
+    if isinstance(target, (ast.Tuple, ast.List)) and isinstance(value, (ast.Tuple, ast.List)) and len(target.elts) == len(value.elts) \
+            and not any(isinstance(x, ast.Starred) for x in list(target.elts) + list(value.elts)):
+        for t, v in zip(target.elts, value.elts):
+            r = _row_member(t, v, name)
+            if r is not None:
+                return r
+    return None
+
+
+def _reads(e: ast.AST) -> List[str]:
+    """keys (local names and dotted attribute chains) an expression reads."""
+    out = []
+    for x in ast.walk(e):
+        if isinstance(x, ast.Name):
+            out.append(x.id)
+        elif isinstance(x, ast.Attribute) and "?" not in dotted(x):
+            out.append(dotted(x))
+    return out
+
+
+def unrolled(cfg: CFG, c: ast.AST, n: Optional[Node]) -> List[ast.AST]:
+    """The constructs that `c` (a call / statement evaluated at node n) stands for.  Normally [c].  When c sits in the body of ONE `for` over a non-empty
+    literal tuple / list of rows (in the header or in a single-definition temporary), reads that loop's variables, and nothing the rows read is
+    (re)defined or updated in place inside the loop or between the evaluation of the table and the loop, the loop is the same program as the body once per row, in order: one copy of c per row,
+    the loop variables replaced by the row's members.  (`for i, w in ((L, a), (u, b)): x.index_add_(0, i, w)` is two writes.)"""
+    if n is None:
+        return [c]
+    loop_vars = {}
+    for x in ast.walk(c):
+        if isinstance(x, ast.Name) and isinstance(x.ctx, ast.Load):
+            ds = cfg.defs_reaching(n, x.id)
+            if len(ds) == 1 and ds[0].kind == "for" and isinstance(ds[0].ast, ast.For):
+                loop_vars[x.id] = ds[0]
+    heads = {d.id: d for d in loop_vars.values()}
+    if len(heads) != 1:
+        return [c]
+    head = next(iter(heads.values()))
+    if not any(x is c for b in head.ast.body for x in ast.walk(b)):
+        return [c]  # after the loop the variables hold the last row only
+    table, at = through(cfg, head.ast.iter, head)
+    if not isinstance(table, (ast.Tuple, ast.List)) or not table.elts or any(isinstance(r, ast.Starred) for r in table.elts):
+        return [c]
+    out = []
+    inside = {id(x) for b in head.ast.body for x in ast.walk(b)}
+    for r in table.elts:
+        members = {v: _row_member(head.ast.target, r, v) for v in loop_vars}
+        if any(m is None for m in members.values()):
+            return [c]
+        # the members are evaluated when the table is built: they denote the same values at c only if nothing they read is (re)defined or updated in
+        # place in between, i.e. every definition that reaches c also reaches the table and none lies inside the loop
+        for m in members.values():
+            for k in _reads(m):
+                ds = cfg.defs_reaching(n, k)
+                if {d.id for d in ds} != {d.id for d in cfg.defs_reaching(at, k)} or any(id(d.ast) in inside or id(d.stmt) in inside for d in ds):
+                    return [c]
+
+        class _Subst(ast.NodeTransformer):
+            def visit_Name(self, x: ast.Name) -> ast.AST:
+                if isinstance(x.ctx, ast.Load) and x.id in members:
+                    return ast.copy_location(copy.deepcopy(members[x.id]), x)
+                return x
+
+        out.append(ast.fix_missing_locations(_Subst().visit(copy.deepcopy(c))))
+    return out
+
+
 def _scalar_index(tb: TermBuilder, e: ast.AST, at: Node) -> bool:
     """an index element that cannot be a tensor: slice, constant, or an expression over loop counters / integer attributes only."""
     if isinstance(e, (ast.Slice, ast.Constant)):
@@ -97,13 +168,14 @@ def mass_writes(cfg: CFG, tb: TermBuilder, fn: Fn) -> List[Tuple[ast.AST, Node, 
         z = buffer_def(cfg, c.func.value, n) if n is not None else None
         if z is None:
             continue
-        if la in ACCUMULATING:
-            out.append((c, n, z, True, ""))
-        elif la in ACCUMULATE_KW:
-            acc = const_value(get_kw(c, "accumulate")) is True or (len(c.args) > 2 and const_value(c.args[2]) is True)
-            out.append((c, n, z, acc, "" if acc else f"`{la}` without accumulate=True writes one of several values addressed to the same element"))
-        else:
-            out.append((c, n, z, False, f"`{la}` overwrites: contributions addressed to the same atom replace each other instead of adding up"))
+        for c in unrolled(cfg, c, n):  # a write in a loop over a literal table of rows is one write per row
+            if la in ACCUMULATING:
+                out.append((c, n, z, True, ""))
+            elif la in ACCUMULATE_KW:
+                acc = const_value(get_kw(c, "accumulate")) is True or (len(c.args) > 2 and const_value(c.args[2]) is True)
+                out.append((c, n, z, acc, "" if acc else f"`{la}` without accumulate=True writes one of several values addressed to the same element"))
+            else:
+                out.append((c, n, z, False, f"`{la}` overwrites: contributions addressed to the same atom replace each other instead of adding up"))
     for n in cfg.live_nodes():
         s = n.ast
         if n.kind != "stmt" or not isinstance(s, (ast.Assign, ast.AugAssign)):
@@ -114,7 +186,18 @@ def mass_writes(cfg: CFG, tb: TermBuilder, fn: Fn) -> List[Tuple[ast.AST, Node, 
             z = buffer_def(cfg, t.value, n)
             if z is None:
                 continue
-            if _basic_index(tb, t.slice, n):
+            rows = unrolled(cfg, s, n)
+            if len(rows) > 1:
+                # one write per row of the literal table the enclosing loop runs over
+                for s2 in rows:
+                    for t2 in (s2.targets if isinstance(s2, ast.Assign) else [s2.target]):
+                        if not isinstance(t2, ast.Subscript):
+                            continue
+                        if _basic_index(tb, t2.slice, n):
+                            out.append((s2, n, z, True, ""))
+                        else:
+                            out.append((s2, n, z, False, f"`{short(s2, 90)}`: an indexed assignment through a tensor-valued index does not accumulate duplicate indices"))
+            elif _basic_index(tb, t.slice, n):
                 out.append((s, n, z, True, ""))
             elif isinstance(s, ast.AugAssign):
                 out.append((s, n, z, False,
